@@ -1612,7 +1612,7 @@ class GMod(G):
     def __init__(self, draw, cfg=None):
         G.__init__(self, draw, cfg or Cfg(max_depth=2, p_confuse=0))
 
-    STD_NAMES = ["math", "io", "env", "regexp"]
+    STD_NAMES = ["math", "io", "env", "regexp", "std"]
 
     def module(self, idx, earlier):
         """-> (name, stmts, exports {name: kind}, path below the package)"""
@@ -1663,6 +1663,12 @@ class GMod(G):
                 seen.update(declared)
                 uses.extend(u)
         n = self.i(1, 4)
+        if self.chance(4):
+            # more exports than the 256 an instance used to hold (a whole-module import is an instance of the module)
+            for k in range(300):
+                out.append(("export", ("let", "%s_w%d" % (name, k), ("num", float(k)))))
+            exports["%s_w299" % name] = "num"
+            exports["%s_w0" % name] = "num"
         for k in range(n):
             c = self.i(0, 9)
             ex = self.chance(70)
@@ -1750,7 +1756,7 @@ class GMod(G):
                 else:
                     main.append(("launch", ("call", ("var", "bg"), [("num", float(j))])))
         # the library modules of the same names, imported before or after the project ones
-        std_pending = [("import", ["std", n], ("whole", "std_" + n)) for n in self.used_std if self.chance(70)]
+        std_pending = [("import", ["std", n if n != "std" else "math"], ("whole", "std_" + n)) for n in self.used_std if self.chance(70)]
         if std_pending and self.chance(50):
             main.extend(std_pending)
             std_pending = []
@@ -1794,6 +1800,14 @@ class GMod(G):
                 alias = "neg_whole"
                 main.append(("import", ["self"] + self.paths[name], ("whole", alias)))
                 main.append(("print", ("prop", ("var", alias), self.pick(private))))
+        elif neg == 5:
+            # a loaded module is not a package: its bare name is no root for further imports
+            cands = [m for m in mods if m[0] != "std"]
+            if cands:
+                name, _s, exports, _p = self.pick(cands)
+                other, _s2, _e2, _p2 = self.pick(mods)
+                main.append(("import", [self.paths[name][-1], other], ("whole", "neg_pkg")))
+                main.append(("print", ("str", "unreachable")))
         elif neg == 4:
             # a module below one that exists, but whose own file does not
             name, _s, exports, _p = self.pick(mods)
